@@ -14,14 +14,15 @@ _T = ("Trusted: Coq 8.16.1 kernel + vm_compute; the hand-written Gallina model, 
 CHECKS = {
  "C01": _c("Props/C01.v: for every n, label assignment, weight function (zero <= w < FLOAT_MAX) and non-empty prototype set, the modelled fit (heap-driven competition) "
            "yields costs equal to the minimum over all prototype-rooted paths of the largest arc (lower bound for every path + attainment), an acyclic predecessor forest with the "
-           "link equation, root labels, and a conquest order that is a cost-sorted permutation. Model tied to supervised.py by exact correspondence on cost/pred/labels/order.",
+           "link equation, root labels, and a conquest order that is a cost-sorted permutation; lifted from Z to every strict total order (Props/C01_anyorder.v) through a proved rank embedding. "
+           "Model tied to supervised.py by exact correspondence on cost/pred/labels/order (incl. int64/strided arrays, index maps with repeats, objects trained repeatedly).",
            "5/C01", "Coq proof: Dijkstra-style loop invariant over the proved heap specification + path certificate lemma; model/impl correspondence",
            _T + "Weights finite, non-NaN, < FLOAT_MAX (sentinel)."),
  "C02": _c("Props/C02.v: the modelled _find_prototypes builds a spanning tree that is minimax-optimal against every path of the complete graph (order-only MST characterisation), "
-           "of minimum total weight, unique under distinct weights; prototypes are exactly the class-crossing endpoints; every class gets one. Tied by exact correspondence on keys/pred/status.",
+           "of minimum total weight, unique under distinct weights; prototypes are exactly the class-crossing endpoints; every class gets one; order-only parts lifted to any strict total order (C02_anyorder.v). Tied by exact correspondence on keys/pred/status.",
            "5/C02", "Coq proof: Prim all-paths invariant, threshold-counting minimum-weight argument, uniqueness; model/impl correspondence", _T + "Symmetric weights < FLOAT_MAX."),
  "C03": _c("Props/C03.v: the cost-ordered scan with early exit returns the label of the first minimiser of max(cost, d) over ALL training samples, for every forest whose order is cost-sorted "
-           "and every distance function; equal to the scan without early exit. Tied by exact correspondence on predictions (supervised and semi-supervised).",
+           "and every distance function; equal to the scan without early exit; lifted to any strict total order (C03_anyorder.v). Tied by exact correspondence on predictions (supervised and semi-supervised).",
            "5/C03", "Coq proof: scan loop invariant; model/impl correspondence", _T),
  "C05": _c("Props/C05.v over Model/Heap.v (statement-by-statement transcription of core/heap.py): invariant preserved by every valid op, remove returns an extremal queued element, "
            "histories refine an abstract priority queue, conservation of inserted elements, failed insert/remove leave the state unchanged, empty/full truthful; any capacity/policy/ties. "
@@ -63,7 +64,7 @@ CHECKS = {
  "C09": _c("Props/C09_sup.v: predict_batch = map predict_one and only the relevance flags of the model change; Props/C09_knn.v: the KNN batch with its threaded scratch array "
            "equals the pointwise map. All four predicts tied by correspondence on batches with duplicates/permutations.", "5/C09", "Coq proof (induction over the batch); model/impl correspondence on batches", _T),
  "C10": _c("Every algorithm of the model takes its weights as a function argument; Props/C10_logic.v: pointwise-equal weight functions give equal outputs and the indexed matrix read equals "
-           "the direct metric call when the index arrays identify the rows. End-to-end: models through a distance file written by pre_compute_distance (.txt/.csv, index arrays) compared "
+           "the direct metric call when the index arrays identify the rows; Props/C10_glue.v: nodes built from split_with_index outputs satisfy that hypothesis, min-max normalisation lands in [0,1]. End-to-end: models through a distance file written by pre_compute_distance (.txt/.csv, index arrays) compared "
            "bit-for-bit with the direct models; get_distances checked.", "5/C10", "Coq proof (weight extensionality / parametricity) + end-to-end file correspondence",
            _T + "Partial: np.savetxt/np.loadtxt round trip of float64 is validated on every matrix entry, not proved."),
  "C11": _c("Props/C11_rescale.v: a strictly increasing map of the weights leaves prototypes, predecessors, labels, order and predictions unchanged and maps costs; Props/C11_perm.v: "
